@@ -85,7 +85,7 @@ def run_asm(pid, tier, kinds, scale, what):
                 reasons[m] = reasons.get(m, 0) + 1
             else:
                 crashed += 1
-    if accepted < 20:
+    if (accepted < 20) and not verdict.violations:      # (a run that found violations reports them)
         raise common.ToolError("vacuous: only %d programs accepted" % accepted)
     avs, res = asmcheck.run(recs, pid.lower())
     pairs = set()
